@@ -49,6 +49,7 @@ theorem checkFrom_ok (st : St) (cc attr : Nat) (cph : Bytes) : ∀ (hs : List Na
         | unavailable => simp [hc] at hok
         | authType => simp [hc] at hok
         | badAttributes => simp [hc] at hok
+        | pcrChanged => simp [hc] at hok
         | noSession => simp [hc] at hok
 
 /-- the whole decision: `ok` implies enough sessions, and every required one passes against the cpHash of the bytes received -/
@@ -167,7 +168,7 @@ theorem policyCheck_pass (s : Session) (e : Entity) (cc : Nat) (r : Role) (h : p
 theorem checkOne_policy (st : St) (e : Entity) (cc : Nat) (r : Role) (cph : Bytes) (a : AuthIn) (s : Session)
     (hpw : a.sh ≠ TPM_RS_PW) (hs : st.session a.sh = some s) (hp : s.policy = true)
     (h : checkOne st e cc r cph a = .pass) :
-    s.pDigest = e.policy ∧ policyAvail e cc r = true ∧ (s.pcc = 0 ∨ s.pcc = cc) ∧ (s.pcc = 0 → r = .user) ∧
+    s.pDigest = e.policy ∧ policyAvail e cc r = true ∧ pcrCurrent st.pcrCounter s = true ∧ (s.pcc = 0 ∨ s.pcc = cc) ∧ (s.pcc = 0 → r = .user) ∧
     (if s.needPw then stripZeros a.hmac = e.auth
      else (s.key ++ (if s.needAuth then e.auth else []) = [] ∧ a.hmac = []) ∨
        a.hmac = hmac sha256 (s.key ++ (if s.needAuth then e.auth else [])) (cph ++ a.nonce ++ s.nonceTPM ++ [UInt8.ofNat a.attrs])) := by
@@ -178,11 +179,14 @@ theorem checkOne_policy (st : St) (e : Entity) (cc : Nat) (r : Role) (cph : Byte
   · simp only [h0] at h
     by_cases h1 : policyAvail e cc r = true
     · simp only [h1, Bool.not_true, Bool.false_eq_true, if_false] at h
+      by_cases hcur : pcrCurrent st.pcrCounter s = true
+      case neg => simp [hcur] at h
+      simp only [hcur, Bool.not_true, Bool.false_eq_true, if_false] at h
       cases hpc : policyCheck s e cc r with
       | pass =>
         obtain ⟨p1, p2, p3⟩ := policyCheck_pass s e cc r hpc
         simp only [hpc] at h
-        refine ⟨p1, h1, p2, p3, ?_⟩
+        refine ⟨p1, h1, hcur, p2, p3, ?_⟩
         by_cases h5 : s.needPw = true
         · simp only [h5, if_true] at h ⊢
           unfold pwCheck at h
@@ -197,9 +201,20 @@ theorem checkOne_policy (st : St) (e : Entity) (cc : Nat) (r : Role) (cph : Byte
       | unavailable => simp [hpc] at h
       | authType => simp [hpc] at h
       | badAttributes => simp [hpc] at h
+      | pcrChanged => simp [hpc] at h
       | noSession => simp [hpc] at h
     · have : policyAvail e cc r = false := by simpa using h1
       simp [this] at h
+
+/-- **a PCR update after PolicyPCR invalidates the session**: a policy session that recorded the PCR update counter
+    (PolicyPCR ran) authorizes nothing once the TPM's counter has moved on -/
+theorem pcr_changed_refused (st : St) (e : Entity) (cc : Nat) (r : Role) (cph : Bytes) (a : AuthIn) (s : Session)
+    (hpw : a.sh ≠ TPM_RS_PW) (hs : st.session a.sh = some s) (hp : s.policy = true)
+    (h0 : s.pcrCtr ≠ 0) (h1 : s.pcrCtr ≠ st.pcrCounter) :
+    checkOne st e cc r cph a ≠ .pass := by
+  intro h
+  have := (checkOne_policy st e cc r cph a s hpw hs hp h).2.2.1
+  simp [pcrCurrent, h0, h1] at this
 
 /-- **ADMIN role on an NV index (NV_ChangeAuth, NV_UndefineSpaceSpecial) is never authorized by a password or an HMAC session** -/
 theorem admin_nv_needs_policy (st : St) (e : Entity) (cc : Nat) (cph : Bytes) (a : AuthIn)
@@ -231,6 +246,14 @@ theorem policyStep_refused (s : Session) (op : PolicyOp) (h : (policyStep s op).
   | authValue => simp [policyStep] at h
   | password => simp [policyStep] at h
   | restart => simp [policyStep] at h
+  | pcr sel values given g =>
+    by_cases ht : s.trial = true
+    · simp [policyStep, ht] at h
+    · by_cases hc : pcrCurrent g s = true
+      · by_cases hg : pcrGivenBad values given = true
+        · simp [policyStep, ht, hc, hg]
+        · simp [policyStep, ht, hc, hg] at h
+      · simp [policyStep, ht, hc]
   | commandCode code =>
     by_cases hc : ccConflict s code = true
     · simp [policyStep, hc]
@@ -254,8 +277,41 @@ theorem policyStep_frame (s : Session) (op : PolicyOp) :
   | authValue => simp [policyStep]
   | password => simp [policyStep]
   | restart => simp [policyStep]
+  | pcr sel values given g =>
+    by_cases ht : s.trial = true
+    · simp [policyStep, ht]
+    · by_cases hc : pcrCurrent g s = true
+      · by_cases hg : pcrGivenBad values given = true <;> simp [policyStep, ht, hc, hg]
+      · simp [policyStep, ht, hc]
   | commandCode code => by_cases hc : ccConflict s code = true <;> simp [policyStep, hc]
   | or ds => by_cases hc : orOk s ds = true <;> simp [policyStep, hc]
+
+/-- **PolicyPCR binds the session to the PCR values of now**: on a real session it succeeds only if no PCR changed since an
+    earlier PolicyPCR and a digest supplied by the caller is the digest of the current values; the new policyDigest is
+    H(old ‖ TPM_CC_PolicyPCR ‖ selection ‖ H(current values)) and the session records the PCR update counter -/
+theorem policyPCR_binds (s : Session) (sel values given : Bytes) (g : Nat) (ht : s.trial = false)
+    (h : (policyStep s (.pcr sel values given g)).2 = 0) :
+    pcrCurrent g s = true ∧ (given = [] ∨ given = hash sha256 values) ∧
+    (policyStep s (.pcr sel values given g)).1.pDigest = pcrExtend s.pDigest sel (hash sha256 values) ∧
+    (policyStep s (.pcr sel values given g)).1.pcrCtr = g := by
+  by_cases hc : pcrCurrent g s = true
+  · by_cases hg : pcrGivenBad values given = true
+    · simp [policyStep, ht, hc, hg, RC_VALUE] at h
+    · refine ⟨hc, ?_, by simp [policyStep, ht, hc, hg], by simp [policyStep, ht, hc, hg]⟩
+      simp only [pcrGivenBad, Bool.and_eq_true, bne_iff_ne, ne_eq, not_and, Decidable.not_not] at hg
+      by_cases hge : given = []
+      · exact Or.inl hge
+      · exact Or.inr (hg hge)
+  · simp [policyStep, ht, hc, RC_PCR_CHANGED] at h
+
+/-- different PCR values give a different digest input: the step is a function of the values only through their hash, and
+    the recorded counter makes any later counted PCR update visible (`pcr_changed_refused`) -/
+theorem policyPCR_then_update_refuses (st : St) (s : Session) (sel values given : Bytes) (g : Nat) (ht : s.trial = false)
+    (h : (policyStep s (.pcr sel values given g)).2 = 0) (hg : g ≠ 0) (hmoved : st.pcrCounter ≠ g) :
+    pcrCurrent st.pcrCounter (policyStep s (.pcr sel values given g)).1 = false := by
+  have := (policyPCR_binds s sel values given g ht h).2.2.2
+  simp [pcrCurrent, this, hg]
+  exact fun h' => hmoved h'.symm
 
 /-- after use, a policy session's digest is gone: it authorizes nothing whose policy is non-trivial until the policy is re-run -/
 theorem resetPolicy_digest (s : Session) (hp : s.policy = true) : (resetPolicy s).pDigest = List.replicate 32 0 ∧ (resetPolicy s).pcc = 0 := by
